@@ -3,12 +3,16 @@
 import re
 from collections import defaultdict
 from lib.facts import CallGraph, find, walk, is_node, path_of, render, render_stmt, render_pat, fns_in_type, strip_refs
-from lib.provenance import Prov, within, comp_str, split_top, param_names
+from lib.provenance import Prov, within, comp_str, split_top, param_names, const_items
+from lib.inline import module_fns, inline_item, inlined_name
 from lib.mirq import Slice
 
 TECHNIQUE = ("table agreement parser leaf (prefix tag -> RealNumber variant) vs evaluator arm (variant -> from_str_radix radix); field-use and operand-order "
              "rules on the float / scientific / rational evaluators (roles = components of the evaluator's parameter, followed through the locals by lib.provenance, independent of local spellings); MIR provenance of the exponent-sign flag back to the parser that produced it; "
-             "deviant-sibling check of the negation arms")
+             "deviant-sibling check of the negation arms (on their canonical form). Robustness: every evaluator is inspected with the private helpers of its module inlined "
+             "(lib.inline: `helper(a)` = its body with the parameters bound to the arguments; an arm of real() is the evaluator of its variant whether written in place, "
+             "a function of its own or going through shared helpers), values are followed through named locals and `const` items (Prov.resolve / origin / sel_roots), "
+             "guards are recognised in either polarity / nesting, the MIR flag provenance follows moves into named locals and a helper's parameter into its callers")
 EXPLANATION = (
     "Decides structural clauses of C13 (narrow): (R1) every RealNumber variant a parser leaf constructs has an explicit evaluator arm in real(); (R2) the leaf "
     "that accepts 0x/0o/0b/0d builds the variant whose evaluator calls from_str_radix with 16/8/2/10; (R3) float and scientific put the whole part before "
@@ -25,6 +29,441 @@ EXPLANATION = (
 RADIX = {"Hexadecimal": ("0x", "16"), "Octal": ("0o", "8"), "Binary": ("0b", "2"), "Decimal": ("0d", "10")}
 
 
+def pat_variants(pat, enum):
+    """variants of `enum` that the top-level alternatives of a pattern name (`E::A(x) | E::B(x)`, `&E::A`, `v @ E::A(..)`); bindings are not looked at"""
+    while is_node(pat) and pat[0] in ("ptype", "pref"):
+        pat = pat[1] if pat[0] == "ptype" else pat[2]
+    if not is_node(pat):
+        return set()
+    if pat[0] == "pident":
+        return pat_variants(pat[4], enum) if pat[4] else set()
+    if pat[0] == "por":
+        out = set()
+        for x in pat[1]:
+            out |= pat_variants(x, enum)
+        return out
+    if pat[0] in ("pts", "ppath", "pstruct") and isinstance(pat[1], str):
+        segs = pat[1].split("::")
+        if len(segs) >= 2 and segs[-2] == enum:
+            return {segs[-1]}
+    return set()
+
+
+def variant_arms(body, enum):
+    """(scrutinee, pattern, arm body expression) for every `match` arm and every `if let` whose pattern names a variant of `enum`"""
+    for n in walk(body):
+        if n[0] == "match":
+            for arm in n[2]:
+                if pat_variants(arm[0], enum):
+                    yield n[1], arm[0], arm[2]
+        elif n[0] == "if" and is_node(n[1]) and n[1][0] == "letc" and pat_variants(n[1][1], enum):
+            yield n[1][2], n[1][1], ["block", n[2]]
+
+
+def const_text(P, e):
+    """rendering of the constant an expression evaluates to, looking through named locals, helper parameters (after inlining), `const` items and casts"""
+    e = P.resolve(e)
+    while is_node(e) and e[0] in ("cast", "paren"):
+        e = P.resolve(e[1])
+    return render(e)
+
+
+def inlined_helpers(e):
+    return sorted({inlined_name(b) for b in find(e, "block") if inlined_name(b)})
+
+
+def _unparen(e):
+    while is_node(e) and e[0] == "paren":
+        e = e[1]
+    return e
+
+
+def flag_polarity(P, c, comp, depth=6):
+    """True when the condition `c` is the bool component `comp` itself (directly or through named locals), False when it is its negation, else None"""
+    pol = True
+    while depth > 0:
+        depth -= 1
+        c = _unparen(c)
+        if P.exact(c) == comp:
+            return pol
+        c = _unparen(P.resolve(c))
+        if is_node(c) and c[0] == "un" and c[1] == "!":
+            pol, c = not pol, c[2]
+            continue
+        if is_node(c) and c[0] == "bin" and c[1] in ("==", "!="):
+            for x, z in ((c[2], c[3]), (c[3], c[2])):
+                if is_node(z) and z[0] == "bool":
+                    if bool(z[1]) != (c[1] == "=="):
+                        pol = not pol
+                    c = x
+                    break
+            else:
+                return None
+            continue
+        return pol if P.exact(c) == comp else None
+    return None
+
+
+def _tail(e):
+    """the value expression of a block / statement list (its last, unterminated expression statement), looking through nested blocks"""
+    while True:
+        if is_node(e) and e[0] in ("block", "unsafe"):
+            e = e[1]
+        if isinstance(e, list) and not is_node(e):
+            if not e or not (is_node(e[-1]) and e[-1][0] == "expr"):
+                return None
+            e = e[-1][1]
+            continue
+        if is_node(e) and e[0] == "paren":
+            e = e[1]
+            continue
+        return e
+
+
+def flag_selections(body, P, comp):
+    """[(node, value when the flag is set, value when it is clear)] for every `if` / `match` in the body that branches on the bool component `comp`
+    (values: statement list / expression, or None for a missing else)"""
+    out = []
+    for n in walk(body):
+        if n[0] == "if" and not (is_node(n[1]) and n[1][0] == "letc"):
+            pol = flag_polarity(P, n[1], comp)
+            if pol is not None:
+                out.append((n, n[2], n[3]) if pol else (n, n[3], n[2]))
+        elif n[0] == "match" and flag_polarity(P, n[1], comp) is not None:
+            pol = flag_polarity(P, n[1], comp)
+            t = f = rest = None
+            for arm in n[2]:
+                pt = arm[0]
+                if is_node(pt) and pt[0] == "plit" and is_node(pt[1]) and pt[1][0] == "bool":
+                    if bool(pt[1][1]) == pol:
+                        t = arm[2]
+                    else:
+                        f = arm[2]
+                elif is_node(pt) and pt[0] in ("pwild", "pident") and rest is None:
+                    rest = arm[2]
+            out.append((n, t if t is not None else rest, f if f is not None else rest))
+    return out
+
+
+def _is_neg_of(P, a, b):
+    """`a` is `-b` (same expression up to the spelling of locals, same provenance, same binding when both are plain locals)"""
+    a, b = _unparen(a), _unparen(b)
+    if not (is_node(a) and a[0] == "un" and a[1] == "-"):
+        return False
+    x, y = _unparen(a[2]), _unparen(b)
+    if not is_node(y):
+        return False
+    if is_node(x) and x[0] == "path" and y[0] == "path":
+        ox, oy = P.origin(x), P.origin(y)
+        return ox is not None and ox is oy
+    return P.shape(x) == P.shape(y) and P.roots(x) == P.roots(y)
+
+
+def _num_lit(e):
+    """numeric value of a (possibly negated) numeric literal, else None"""
+    e = _unparen(e)
+    sign = 1.0
+    if is_node(e) and e[0] == "un" and e[1] == "-":
+        sign, e = -1.0, _unparen(e[2])
+    if is_node(e) and e[0] in ("int", "lit") and re.match(r"^[0-9][0-9_]*(\.[0-9_]*)?", str(e[1])):
+        try:
+            return sign * float(re.match(r"^[0-9][0-9_]*(\.[0-9_]*)?", str(e[1])).group(0).replace("_", ""))
+        except ValueError:
+            return None
+    return None
+
+
+def _unit_sign(P, x):
+    """`x` is (a local initialised by) a selection between the literals 1 and -1"""
+    x = _unparen(P.resolve(x))
+    if is_node(x) and x[0] == "if" and x[3] is not None:
+        vals = {_num_lit(_tail(x[2])), _num_lit(_tail(x[3]))}
+    elif is_node(x) and x[0] == "match" and len(x[2]) == 2:
+        vals = {_num_lit(_tail(a[2])) for a in x[2]}
+    else:
+        return False
+    return vals == {1.0, -1.0}
+
+
+def sign_negates_exponent(body, P, sign, exp):
+    """the exponent (a value computed from the components `exp` other than the flag) is negated exactly when the flag component `sign` is set.
+    Recognised spellings of the negation: `if flag { x = -x; }`, `if flag { -x } else { x }` (also with the flag negated and the branches swapped,
+    or as a `match` on the flag, in place or as the initialiser of a local), and a factor `if flag { -1.0 } else { 1.0 }` multiplied onto the exponent.
+    Every other branch on the flag may only select the spelled sign (a text with `-` when the flag is set, without when it is clear)."""
+    def exp_value(e):
+        r = P.roots(e)
+        return within(r, exp) and not any(within([c], sign) for c in r)
+    negators = 0
+    for n, t, f in flag_selections(body, P, sign):
+        tv, fv = _tail(t) if t is not None else None, _tail(f) if f is not None else None
+        if f is None or (isinstance(f, list) and not f):
+            # `if flag { x = -x; }`
+            if any(is_node(a[2]) and a[2][0] == "un" and a[2][1] == "-" and path_of(a[1]) and path_of(a[1]) == path_of(_unparen(a[2][2])) and exp_value(a[2][2])
+                   for a in find(t, "assign")) and not list(find(f or [], "assign")):
+                negators += 1
+                continue
+            return False
+        if tv is not None and fv is not None and _is_neg_of(P, tv, fv) and exp_value(fv):
+            negators += 1
+            continue
+        if tv is not None and fv is not None and _num_lit(tv) == -1.0 and _num_lit(fv) == 1.0:
+            # a sign factor: it must be multiplied onto an exponent value
+            def is_factor(x):
+                x = _unparen(x)
+                return x is n or (is_node(x) and x[0] == "path" and _unparen(P.resolve(x)) is n)
+            if any(m[1] in ("*", "*=") and ((is_factor(m[2]) and exp_value(m[3])) or (is_factor(m[3]) and exp_value(m[2]))) for m in find(body, "bin")):
+                negators += 1
+                continue
+            return False
+        rt, rf = _unparen(P.resolve(tv)) if tv is not None else None, _unparen(P.resolve(fv)) if fv is not None else None
+        if is_node(rt) and rt[0] == "str" and is_node(rf) and rf[0] == "str" and "-" in rt[1] and "-" not in rf[1]:
+            continue                                    # selects the spelled sign: a minus exactly when the flag is set
+        return False
+    return negators == 1
+
+
+def zero_test_polarity(P, c, comp):
+    """True when `c` holds exactly if a value computed from component `comp` is zero, False when it holds exactly if it is not, else None"""
+    pol = True
+    c = _unparen(c)
+    while is_node(c) and c[0] == "un" and c[1] == "!":
+        pol, c = not pol, _unparen(c[2])
+    c = _unparen(P.resolve(c)) if is_node(c) and c[0] == "path" else c
+    while is_node(c) and c[0] == "un" and c[1] == "!":
+        pol, c = not pol, _unparen(c[2])
+    if not is_node(c):
+        return None
+    if c[0] == "mcall" and c[2] == "is_zero" and not c[4] and within(P.roots(c[1]), comp):
+        return pol
+    if c[0] == "bin" and c[1] in ("==", "!="):
+        for x, z in ((c[2], c[3]), (c[3], c[2])):
+            z = _unparen(P.resolve(z))
+            if is_node(z) and z[0] == "int" and re.match(r"^0+$", str(z[1])) and path_of(_unparen(strip_refs(_unparen(x)))) and within(P.roots(x), comp):
+                return pol if c[1] == "==" else not pol
+    return None
+
+
+def zero_tested_before(body, P, site, comp):
+    """the node `site` is evaluated only after a test of a `comp`-derived value for zero: it sits in the non-zero branch of such a test, or a
+    statement that unconditionally performs the test (with a non-empty zero branch: a panic / early exit) precedes it in an enclosing block.
+    Blocks of inlined helpers are looked into."""
+    def contains(n, x):
+        return n is x or any(y is x for y in walk(n))
+
+    def zero_if(e):
+        if is_node(e) and e[0] == "if":
+            zp = zero_test_polarity(P, e[1], comp)
+            if zp is not None:
+                return (e[2], e[3]) if zp else (e[3], e[2])
+        return None
+
+    def performs_test(e):
+        """evaluating e unconditionally runs a zero test whose zero branch does something"""
+        if not is_node(e):
+            return False
+        zi = zero_if(e)
+        if zi is not None:
+            zb = zi[0]
+            return bool(zb[1] if is_node(zb) and zb[0] in ("block", "unsafe") else zb)
+        if e[0] in ("block", "unsafe"):
+            return any(performs_test(s) for s in e[1])
+        if e[0] == "let":
+            return performs_test(e[2])
+        if e[0] in ("expr", "try", "paren"):
+            return performs_test(e[1])
+        if e[0] == "call":
+            return any(performs_test(a) for a in e[2])
+        if e[0] == "mcall":
+            return performs_test(e[1]) or any(performs_test(a) for a in e[4])
+        return False
+
+    if is_node(site) and site[0] == "call" and any(performs_test(a) for a in site[2]):
+        return True                 # the test runs while the arguments of the construction are evaluated
+
+    def in_stmts(stmts):
+        seen = False
+        for st in stmts:
+            if contains(st, site):
+                return seen or descend(st)
+            if performs_test(st):
+                seen = True
+        return False
+
+    def descend(n):
+        if n is site:
+            return False
+        zi = zero_if(n)
+        if zi is not None:
+            zb, nb = zi
+            if nb is not None and contains(nb, site):
+                return True
+            if zb is not None and contains(zb, site):
+                return False
+        for x in n[1:] if is_node(n) else n:
+            if isinstance(x, list) and contains(x, site):
+                if x and not is_node(x) and all(is_node(y) and y[0] in ("let", "expr", "item") for y in x):
+                    return in_stmts(x)
+                return descend(x)
+        return False
+    return in_stmts(body)
+
+
+_FLAG_PASS = re.compile(r"::is_some$|::is_none$|::is_ok$|::map$|::unwrap_or$|::then$|::then_some$")
+
+
+def tuple_def(sl, op, arity):
+    """the tuple aggregate statement (of `arity` components) that defines the operand, looking through moves / copies into named locals"""
+    seen = set()
+    while isinstance(op, list) and op[0] not in seen and op[1] == "":
+        seen.add(op[0])
+        ds = sl.defs.get(op[0], [])
+        for bi, st in ds:
+            if st.get("rk") == "agg" and st.get("tuple") and len(st["src"]) == arity:
+                return st
+        nxt = None
+        for bi, st in ds:
+            if st.get("rk") == "use" and st["src"] and isinstance(st["src"][0], list):
+                nxt = st["src"][0]
+        op = nxt
+    return None
+
+
+def _const_def_blocks(sl, op):
+    """blocks in which a constant is stored into the operand's local (directly or into a local that is moved / copied into it)"""
+    out, seen, st = set(), set(), [op[0]]
+    while st:
+        l = st.pop()
+        if l in seen:
+            continue
+        seen.add(l)
+        for bi, s in sl.defs.get(l, []):
+            if s.get("k") == "call":
+                continue
+            if s.get("rk") in ("use", "cast"):
+                for o in s["src"]:
+                    if isinstance(o, list):
+                        st.append(o[0])
+                    else:
+                        out.add(bi)
+    return sorted(out)
+
+
+def flag_parsers(F, b, op, depth=2):
+    """names of the mech_syntax parser functions whose result decides the bool operand `op` of body `b`: by data flow (`neg.is_some()`), by the
+    branch that selects between constant stores (`match neg { Some(_) => true, None => false }`, `if let`, `if neg.is_some() {..}`), and - when the
+    flag is a parameter of a helper that builds the node - in the callers of that helper"""
+    sl = Slice(b, extra_pass=_FLAG_PASS)
+    roots = sl.roots(op)
+    if roots and all(r[0] == "const" for r in roots):
+        defb = _const_def_blocks(sl, op)
+        ctrl = set()
+        if defb:
+            idom = b.idom()
+            x = defb[0]
+            while x != 0:
+                x = idom.get(x, 0)
+                t = b.blocks[x]["t"]
+                if t["k"] == "switch" and isinstance(t["on"], list) and all(b.dominates(x, d) for d in defb):
+                    reach = [frozenset(d for d in defb if d in b.reachable_from([sx])) for sx in b.succ(x)]
+                    if len(set(reach)) > 1 or len(defb) == 1:
+                        ctrl = sl.roots(t["on"])
+                        break
+        roots = ctrl
+    fns = set()
+    for r in roots:
+        if r[0] == "call":
+            t = b.blocks[r[2]]["t"]
+            for g in t.get("ga", []):
+                fns |= {f.split("::")[-1] for f in fns_in_type(g) if f.startswith("mech_syntax::")}
+        elif r[0] == "arg" and depth > 0:
+            for c in F.bodies("mech_syntax.lib"):
+                for bi, t in c.calls():
+                    if (t.get("f") or t.get("tf")) == b.fn and len(t["args"]) >= r[1]:
+                        fns |= flag_parsers(F, c, t["args"][r[1] - 1], depth - 1)
+    return fns
+
+
+def canon(P, e, binds=(), depth=0):
+    """AST of `e` modulo behaviour-preserving spelling: helper calls are expected to be inlined already (lib.inline); locals with an initialiser
+    are replaced by it, a block of such `let`s followed by a value by that value, references / dereferences / parentheses / type ascriptions are
+    dropped, the bindings `binds` (pident nodes, e.g. the payload binding of a match arm) become `$0, $1 ..` and every other local `_`."""
+    def sub(n, d):
+        if not isinstance(n, list):
+            return n
+        if not is_node(n):
+            return [sub(x, d) for x in n]
+        t = n[0]
+        if t == "path" and isinstance(n[1], str):
+            i = P.init(n)
+            if i is not None and d < 10:
+                return sub(i, d + 1)
+            pid = P._pid.get(id(n))
+            if pid is not None:
+                for k, b in enumerate(binds):
+                    if pid is b:
+                        return ["path", "$%d" % k]
+                return ["path", "_"]
+            return n
+        if t == "ref" or (t == "un" and n[1] == "*"):
+            return sub(n[2], d)
+        if t == "paren":
+            return sub(n[1], d)
+        if t in ("block", "unsafe"):
+            stmts = n[1]
+            if stmts and is_node(stmts[-1]) and stmts[-1][0] == "expr" and all(
+                    is_node(st) and st[0] == "let" and st[2] is not None and (len(st) < 4 or st[3] is None) and _plain_ident(st[1]) is not None
+                    and _plain_ident(st[1]) not in P._mutated for st in stmts[:-1]):
+                return sub(stmts[-1][1], d)
+            return [t, [sub(x, d) for x in stmts]]
+        if t == "pident":
+            return ["pident", "_", n[2], n[3], sub(n[4], d)]
+        if t == "ptype":
+            return sub(n[1], d)
+        if t == "macro":
+            return n
+        return [n[0]] + [sub(x, d) for x in n[1:]]
+    return sub(e, depth)
+
+
+def _plain_ident(pat):
+    while is_node(pat) and pat[0] == "ptype":
+        pat = pat[1]
+    return pat[1] if is_node(pat) and pat[0] == "pident" and not pat[4] else None
+
+
+def run_r5(rep, lit, prov):
+    """K2 deviant sibling over the arms of negated(), on the arms' canonical form (helpers inlined, named locals substituted, payload binding
+    abstracted): an arm that was rewritten without changing what it computes stays in its class, an arm that computes something else leaves it"""
+    from lib import k2
+    rule = "C13-R5"
+    rep.rule(rule, "deviant sibling (K2): per-variant arms of the listed functions keep their frozen co-classification (one arm edited differently from its siblings is reported)")
+    ref = k2.load_ref()
+    want = 1 if "negated" in ref else 0
+    found = 0
+    if "negated" in lit:
+        it = inline_item(lit["negated"], lit, 2, stop=DISPATCH)
+        P = prov(it)
+        best = None
+        for m in find(it["body"], "match"):
+            part = {}
+            for arm in m[2]:
+                vs = pat_variants(arm[0], "Value")
+                binds = [x for x in walk(arm[0]) if x[0] == "pident"]
+                for v in vs:
+                    text = render(canon(P, arm[2], binds)) + ((" if " + render(canon(P, arm[1], binds))) if arm[1] else "")
+                    part[v] = k2.norm("%d => %s" % (len(binds), text), v)
+            if len(part) >= 6 and (best is None or len(part) > len(best)):
+                best = part
+        if best and want:
+            found = 1
+            k2.check(rep, rule, "negated", best, "negated (mech_interpreter.lib)")
+    rep.floor(rule, "sibling-partition targets found", found, want)
+
+
+# dispatchers of the literal evaluator: they stay calls when a rule inlines the helpers of an evaluator (the rules that inspect them do so by name)
+DISPATCH = ("literal", "number", "real", "typed_literal", "kind_annotation")
+
+
 def run(F, rep, tier):
     rep.rule("C13-R1", "every constructible RealNumber variant has an evaluator arm")
     rep.rule("C13-R2", "prefix tag -> variant -> radix agreement")
@@ -32,8 +471,16 @@ def run(F, rep, tier):
     rep.rule("C13-R4", "negated(): same variant, unary minus")
     syn_items = F.syn("mech_syntax.lib")
     int_items = F.syn("mech_interpreter.lib")
-    lit = {it["name"]: it for it in int_items if it["k"] == "fn" and it["mod"].endswith("literals")}
-    plit = {it["name"]: it for it in syn_items if it["k"] == "fn" and it["mod"].endswith("literals")}
+    lit = module_fns(int_items, "literals")
+    plit = module_fns(syn_items, "literals")
+    consts = const_items(int_items)
+    pconsts = const_items(syn_items)
+
+    def prov(it, cs=consts):
+        P = Prov(it)
+        P.consts = cs
+        return P
+
     # constructible variants (MIR aggregates in mech_syntax)
     built = defaultdict(set)
     for b in F.bodies("mech_syntax.lib"):
@@ -42,211 +489,213 @@ def run(F, rep, tier):
                 built[s["var"]].add(b.fn.split("::")[-1])
     rep.floor("C13-R1", "RealNumber variants constructed by the parser", len(built), 8)
     real = lit.get("real")
-    arms = {}
+
+    def real_arms(stop=(), depth=4):
+        """{variant: [arm body]} of the match(es) on real()'s parameter, with the module's helpers inlined into real() and into the arms
+        (an arm is the evaluator of its variant whether it is written in place, is a function of its own or goes through shared helpers)"""
+        it = inline_item(real, lit, depth, stop)
+        P = prov(it)
+        out = defaultdict(list)
+        for scrut, pat, arm in variant_arms(it["body"], "RealNumber"):
+            if P.exact(scrut) == (0,):
+                for v in pat_variants(pat, "RealNumber"):
+                    out[v].append(arm)
+        return P, out
+    arms, P_real = {}, None
     if rep.check(real is not None, "C13-R1", "anchor:real", "literal evaluator real() not found"):
-        for m in find(real["body"], "match"):
-            for arm in m[2]:
-                p = arm[0]
-                if p[0] == "pts" and p[1].startswith("RealNumber::"):
-                    callee = [path_of(c[1]) for c in find(arm[2], "call") if path_of(c[1])]
-                    arms[p[1].split("::")[-1]] = callee
+        P_real, arms = real_arms()
         for v in sorted(built):
             rep.check(v in arms, "C13-R1", "evaluator-arm:%s" % v, "RealNumber::%s is built by the parser (%s) but real() has no arm for it (it falls into the panic arm)" % (v, sorted(built[v])),
-                      sample={"variant": v, "evaluator": arms.get(v)})
+                      sample={"variant": v, "evaluator": inlined_helpers(arms.get(v))[:1] if v in arms else None})
     # R2
+    # parser helpers that do not themselves build a RealNumber are part of the leaf that calls them (a leaf that calls another leaf is an alternative, not a part)
+    builders = set()
+    for fns_ in built.values():
+        builders |= fns_
     for var, (tag, radix) in sorted(RADIX.items()):
         leafs = [n for n in built.get(var, ())]
         ok_tag = False
-        for n in leafs:
+        for n in sorted(leafs):
             it = plit.get(n)
             if it is None:
                 continue
-            tags = [c[2][0][1] for c in find(it["body"], "call") if path_of(c[1]) == "tag" and c[2] and c[2][0][0] == "str"]
+            it = inline_item(it, plit, 2, stop=builders)
+            PL = prov(it, pconsts)
+            tags = []
+            for c in find(it["body"], "call"):
+                if (path_of(c[1]) or "").split("::")[-1] == "tag" and c[2]:
+                    a = PL.resolve(c[2][0])
+                    if is_node(a) and a[0] == "str":
+                        tags.append(a[1])
             if tags == [tag]:
                 ok_tag = True
             else:
                 rep.bad("C13-R2", "%s:prefix:%s" % (var, ",".join(tags)), "the parser leaf %s that builds RealNumber::%s accepts prefix %s, expected [\"%s\"]" % (n, var, tags, tag))
         rep.check(ok_tag or not leafs, "C13-R2", "%s:prefix" % var, "no parser leaf accepts `%s` for RealNumber::%s" % (tag, var))
         ev = arms.get(var, [])
-        ev = [e for e in ev if e in lit]
-        if rep.check(len(ev) == 1, "C13-R2", "%s:evaluator" % var, "RealNumber::%s is not evaluated by a dedicated function (%s)" % (var, arms.get(var))):
-            body = lit[ev[0]]["body"]
-            radixes = [render(c[2][1]) for c in find(body, "call") if (path_of(c[1]) or "").endswith("from_str_radix") and len(c[2]) == 2]
+        sites = [c for a in ev for c in find(a, "call") if (path_of(c[1]) or "").endswith("from_str_radix") and len(c[2]) == 2]
+        if rep.check(len(ev) == 1 and bool(sites), "C13-R2", "%s:evaluator" % var,
+                     "RealNumber::%s is not evaluated by a radix parse: its arm in real() (helpers followed: %s) reaches no from_str_radix call" % (var, inlined_helpers(ev))):
+            radixes = [const_text(P_real, c[2][1]) for c in sites]
             rep.check(radixes == [radix], "C13-R2", "%s:radix" % var, "RealNumber::%s (prefix %s) is parsed with radix %s, expected %s" % (var, tag, radixes, radix),
-                      sample={"variant": var, "prefix": tag, "evaluator": ev[0], "radix": radixes})
+                      sample={"variant": var, "prefix": tag, "evaluator": (inlined_helpers(ev) or [None])[0], "radix": radixes})
     # R3 float / scientific / rational evaluators.  The roles (whole part, fraction, exponent sign, ...) are identified by the COMPONENT of the
-    # evaluator's parameter a value is computed from (lib.provenance), never by the spelling of the locals that carry them.
+    # evaluator's parameter a value is computed from (lib.provenance), never by the spelling of the locals that carry them.  Private helpers of
+    # the module are inlined first (lib.inline), so a role is followed into a helper the value is handed to.
     WHOLE, FRAC = (0, "0"), (0, "1")                                       # float(&(whole, fraction)), rational(&(numerator, denominator))
     M_WHOLE, M_FRAC = (0, "0", "0"), (0, "0", "1")                         # scientific(&((whole, part), (sign, exp_whole, exp_part)))
     E_SIGN, E_WHOLE, E_FRAC = (0, "1", "0"), (0, "1", "1"), (0, "1", "2")
 
-    def fmt_args(fn, P, spec='"{0}.{1}"', exact_spec=True):
-        """[[roots of argument i] ...] of every format!/format_args! in fn whose format string is `spec`"""
+    def evaluator(name):
+        it = inline_item(lit[name], lit, 3, stop=DISPATCH)
+        return it, prov(it)
+
+    def fmt_args(body, P, spec='"{0}.{1}"', exact_spec=True, influence=False):
+        """[[roots of argument i] ...] of every format!/format_args! in fn whose format string is `spec` (influence: incl. what selects the value of
+        an argument that is a local initialised by a conditional)"""
         out = []
-        for m in find(lit[fn]["body"], "macro"):
+        for m in find(body, "macro"):
             if m[1].split("::")[-1] in ("format_args", "format"):
                 parts = split_top(m[2] or "")
                 if parts and (parts[0] == spec if exact_spec else parts[0].startswith(spec)):
-                    out.append([r for _, r in P.macro_args(m)[1:]])
+                    out.append(P.macro_sel_roots(m)[1:] if influence else [r for _, r in P.macro_args(m)[1:]])
         return out
 
     def show(fa):
         return [[sorted(comp_str(c) for c in r) for r in a] for a in fa]
     if rep.check("float" in lit, "C13-R3", "anchor:float", "float() not found"):
-        P = Prov(lit["float"])
-        fa = fmt_args("float", P)
+        it, P = evaluator("float")
+        fa = fmt_args(it["body"], P)
         ok = len(fa) == 1 and len(fa[0]) == 2 and within(fa[0][0], WHOLE) and within(fa[0][1], FRAC)
         rep.check(bool(ok), "C13-R3", "float:whole-then-fraction", "float() does not format `<whole>.<fraction>` from components (0, 1) of its argument in that order: %s" % show(fa))
     if rep.check("scientific" in lit, "C13-R3", "anchor:scientific", "scientific() not found"):
-        body = lit["scientific"]["body"]
-        P = Prov(lit["scientific"])
-        fa = fmt_args("scientific", P)
-        # tuple destructuring: every component of ((whole, part), (sign, exp_whole, exp_part)) is bound to a local of its own
+        it, P = evaluator("scientific")
+        body = it["body"]
+        fa = fmt_args(body, P)
+        # every component of ((whole, part), (sign, exp_whole, exp_part)) is referred to on its own (bound to a local by destructuring, or by member access)
         comps = (M_WHOLE, M_FRAC, E_SIGN, E_WHOLE, E_FRAC)
-        rep.check(all(c in P.bound for c in comps), "C13-R3", "scientific:destructuring",
-                  "scientific() no longer destructures its argument into ((whole, part), (sign, exp_whole, exp_part)): components bound to a local: %s" % sorted(comp_str(c) for c in P.bound))
+        used = P.used_components(body)
+        rep.check(all(c in used for c in comps), "C13-R3", "scientific:destructuring",
+                  "scientific() no longer takes its argument apart into ((whole, part), (sign, exp_whole, exp_part)): components referred to: %s" % sorted(comp_str(c) for c in used))
         mant = [a for a in fa if len(a) == 2 and within(a[0], M_WHOLE) and within(a[1], M_FRAC)]
         expo = [a for a in fa if len(a) == 2 and within(a[0], E_WHOLE) and within(a[1], E_FRAC)]
         ok = len(fa) == 2 and len(mant) == 1 and len(expo) == 1
-        # the decimal spelling `<whole>.<part>e<sign><exp_whole>` (when the function spells one) takes the same components in that order
-        for a in fmt_args("scientific", P, '"{0}.{1}e', exact_spec=False):
+        # the decimal spelling `<whole>.<part>e<sign><exp_whole>` (when the function spells one) takes the same components in that order; the sign
+        # text is SELECTED by the sign flag (`if sign {"-"} else {""}` in place, or a local initialised that way): what influences it is the flag only
+        spelled = fmt_args(body, P, '"{0}.{1}e', exact_spec=False, influence=True)
+        for a in spelled:
             ok = ok and len(a) == 4 and within(a[0], M_WHOLE) and within(a[1], M_FRAC) and within(a[2], E_SIGN) and within(a[3], E_WHOLE)
         rep.check(bool(ok), "C13-R3", "scientific:mantissa-and-exponent-components",
-                  "scientific() does not build mantissa from (whole, part) and exponent from (exp_whole, exp_part): %s" % show(fa + fmt_args("scientific", P, '"{0}.{1}e', exact_spec=False)))
-        neg = [n for n in find(body, "if") if P.exact(n[1]) == E_SIGN]
-        okn = False
-        if len(neg) == 1 and neg[0][3] is None:
-            okn = any(is_node(a[2]) and a[2][0] == "un" and a[2][1] == "-" and path_of(a[1]) and path_of(a[1]) == path_of(a[2][2]) and within(P.roots(a[2][2]), (0, "1")) and
-                      not any(within([r], E_SIGN) for r in P.roots(a[2][2])) for a in find(neg[0][2], "assign"))
-        rep.check(bool(okn), "C13-R3", "scientific:sign-negates-exponent", "scientific() does not negate the exponent exactly when the sign flag is set")
+                  "scientific() does not build mantissa from (whole, part) and exponent from (exp_whole, exp_part): %s" % show(fa + spelled))
+        rep.check(sign_negates_exponent(body, P, E_SIGN, (0, "1")), "C13-R3", "scientific:sign-negates-exponent", "scientific() does not negate the exponent exactly when the sign flag is set")
         # scaling: <mantissa> * 10^<exponent> - the power's argument is computed from the exponent components only
         pows = [m for m in find(body, "mcall") if m[2] in ("powf", "powi")] + [c for c in find(body, "call") if (path_of(c[1]) or "").split("::")[-1] in ("powf", "powi")]
         okp = bool(pows) and all(within(P.roots(m[4] if m[0] == "mcall" else m[2][1:]), (0, "1")) for m in pows)
         rep.check(okp, "C13-R3", "scientific:power-of-ten", "scientific() does not scale the mantissa by a power of ten whose exponent is computed from the exponent components")
     if rep.check("rational" in lit, "C13-R3", "anchor:rational", "rational() not found"):
-        body = lit["rational"]["body"]
-        P = Prov(lit["rational"])
+        it, P = evaluator("rational")
+        body = it["body"]
         news = [c for c in find(body, "call") if (path_of(c[1]) or "").endswith("R64::new")]
-        ok = len(news) == 1 and len(news[0][2]) == 2 and within(P.roots(news[0][2][0]), WHOLE) and within(P.roots(news[0][2][1]), FRAC) and WHOLE in P.bound and FRAC in P.bound
+        used = P.used_components(body)
+        ok = len(news) == 1 and len(news[0][2]) == 2 and within(P.roots(news[0][2][0]), WHOLE) and within(P.roots(news[0][2][1]), FRAC) and WHOLE in used and FRAC in used
         rep.check(ok, "C13-R3", "rational:numerator-then-denominator", "rational() does not construct R64::new(num, denom) from the (numerator, denominator) pair in that order")
-        # zero test precedes construction
-        def zero_test(c):
-            if not (is_node(c) and c[0] == "bin" and c[1] == "=="):
-                return False
-            for x, z in ((c[2], c[3]), (c[3], c[2])):
-                if is_node(z) and z[0] == "int" and z[1] == "0" and path_of(strip_refs(x)) and within(P.roots(x), FRAC):
-                    return True
-            return False
-        idx_new = None
-        idx_test = None
-        for i, st in enumerate(body):
-            if any(True for c in find(st, "call") if (path_of(c[1]) or "").endswith("R64::new")) and idx_new is None:
-                idx_new = i
-            if st[0] == "expr" and is_node(st[1]) and st[1][0] == "if" and zero_test(st[1][1]) and idx_test is None:
-                idx_test = i
-        rep.check(idx_test is not None and idx_new is not None and idx_test < idx_new, "C13-R3", "rational:zero-denominator-test-first", "rational() does not test the denominator for zero before constructing the value")
-    # exponent sign provenance (MIR, parser side)
-    sb = [b for b in F.bodies("mech_syntax.lib") if b.fn.endswith("literals::scientific_literal")]
-    if rep.check(len(sb) == 1, "C13-R3", "anchor:scientific_literal", "scientific_literal not found"):
-        b = sb[0]
-        sl = Slice(b, extra_pass=re.compile(r"::is_some$|::is_none$|::is_ok$|::map$|::unwrap_or$|::then$|::then_some$"))
+        rep.check(len(news) >= 1 and all(zero_tested_before(body, P, c, FRAC) for c in news), "C13-R3", "rational:zero-denominator-test-first",
+                  "rational() does not test the denominator for zero before constructing the value")
+    # exponent sign provenance (MIR, parser side): in whichever parser function builds RealNumber::Scientific (found by the aggregate, not by name)
+    sb = [b for b in F.bodies("mech_syntax.lib") if any(s["adt"].endswith("nodes::RealNumber") and s["var"] == "Scientific" for _, s in b.aggs())]
+    if rep.check(len(sb) >= 1, "C13-R3", "anchor:scientific_literal", "no parser function builds RealNumber::Scientific (scientific_literal not found)"):
         done = False
-        for i, s in b.aggs():
-            if s["adt"].endswith("nodes::RealNumber") and s["var"] == "Scientific":
-                # payload tuple -> exponent tuple -> first component
-                tup = s["src"][0]
-                exp_local = None
-                for bi, st in sl.defs.get(tup[0], []):
-                    if st.get("rk") == "agg" and st.get("tuple") and len(st["src"]) == 2:
-                        exp_local = st["src"][1]
-                sign_op = None
-                if exp_local is not None:
-                    for bi, st in sl.defs.get(exp_local[0], []):
-                        if st.get("rk") == "agg" and st.get("tuple") and len(st["src"]) == 3:
-                            sign_op = st["src"][0]
-                if sign_op is None:
-                    continue
-                done = True
-                roots = sl.roots(sign_op)
-                if roots and all(r[0] == "const" for r in roots):
-                    # the flag is set by control flow (`match neg { Some(_) => true, None => false }`): take what the deciding branch tests
-                    defb = sorted({bi for bi, st in sl.defs.get(sign_op[0], [])})
-                    idom = b.idom()
-                    x = defb[0]
-                    ctrl = set()
-                    while x != 0:
-                        x = idom.get(x, 0)
-                        t = b.blocks[x]["t"]
-                        if t["k"] == "switch" and isinstance(t["on"], list) and all(any(d in b.reachable_from([sx]) for sx in b.succ(x)) for d in defb):
-                            ctrl = sl.roots(t["on"])
-                            break
-                    roots = ctrl
-                fns = set()
-                for r in roots:
-                    if r[0] == "call":
-                        t = b.blocks[r[2]]["t"]
-                        for g in t.get("ga", []):
-                            fns |= {f.split("::")[-1] for f in fns_in_type(g) if f.startswith("mech_syntax::")}
-                consts = [r for r in roots if r[0] == "const"]
-                ok = fns == {"dash"}
-                rep.check(ok, "C13-R3", "scientific_literal:exponent-sign-from-minus-only" if ok else "scientific_literal:exponent-sign-from:%s" % ",".join(sorted(fns)),
-                          "the exponent-sign flag of RealNumber::Scientific derives from the parsers %s; it must derive from the minus-sign parser only (an explicit `+` must not negate the exponent)" % sorted(fns),
-                          b.where(), sample={"parsers_feeding_sign_flag": sorted(fns)})
-        rep.check(done, "C13-R3", "scientific_literal:sign-flag-found", "could not locate the exponent-sign component of RealNumber::Scientific", b.where())
+        for b in sb:
+            sl = Slice(b, extra_pass=_FLAG_PASS)
+            for i, s in b.aggs():
+                if s["adt"].endswith("nodes::RealNumber") and s["var"] == "Scientific":
+                    # payload tuple -> exponent tuple -> first component (each possibly through named locals / moves)
+                    pay = tuple_def(sl, s["src"][0], 2)
+                    exp = tuple_def(sl, pay["src"][1], 3) if pay is not None else None
+                    if exp is None:
+                        continue
+                    done = True
+                    fns = flag_parsers(F, b, exp["src"][0])
+                    ok = fns == {"dash"}
+                    rep.check(ok, "C13-R3", "scientific_literal:exponent-sign-from-minus-only" if ok else "scientific_literal:exponent-sign-from:%s" % ",".join(sorted(fns)),
+                              "the exponent-sign flag of RealNumber::Scientific derives from the parsers %s; it must derive from the minus-sign parser only (an explicit `+` must not negate the exponent)" % sorted(fns),
+                              b.where(), sample={"parsers_feeding_sign_flag": sorted(fns)})
+        rep.check(done, "C13-R3", "scientific_literal:sign-flag-found", "could not locate the exponent-sign component of RealNumber::Scientific", sb[0].where())
     # R4 negated
     if rep.check("negated" in lit, "C13-R4", "anchor:negated", "negated() not found"):
         n = 0
-        for m in find(lit["negated"]["body"], "match"):
-            for arm in m[2]:
-                p = arm[0]
-                if p[0] == "pts" and p[1].startswith("Value::") and p[2] and p[2][0][0] == "pident":
-                    v = p[1].split("::")[-1]
-                    b_ = p[2][0][1]
-                    n += 1
-                    calls = [c for c in find(arm[2], "call") if path_of(c[1]) == "Value::" + v]
-                    ok = len(calls) == 1 and any(u[1] == "-" and any(x[1] == b_ for x in find(u[2], "path")) for u in find(calls[0], "un"))
-                    rep.check(ok, "C13-R4", "negated:%s" % v, "negated(): the arm for Value::%s does not produce Value::%s(-value): `%s`" % (v, v, render(arm[2])[:80]), sample={"variant": v})
+        it = inline_item(lit["negated"], lit, 2, stop=DISPATCH)
+        P = prov(it)
+        for scrut, pat, arm in variant_arms(it["body"], "Value"):
+            vs = pat_variants(pat, "Value")
+            binds = [x for x in walk(pat) if x[0] == "pident"]
+            if len(vs) != 1 or len(binds) != 1:
+                continue
+            v = sorted(vs)[0]
+            b_ = binds[0]
+            n += 1
+            calls = [c for c in find(arm, "call") if (path_of(c[1]) or "").split("::")[-2:] == ["Value", v]]
+            # the payload binding of the arm (whatever it is called, also after it was handed to a helper) under a unary minus
+            ok = len(calls) == 1 and any(u[1] == "-" and any(P.origin(x) is b_ for x in find(u[2], "path")) for u in find(calls[0], "un"))
+            rep.check(ok, "C13-R4", "negated:%s" % v, "negated(): the arm for Value::%s does not produce Value::%s(-value): `%s`" % (v, v, render(arm)[:80]), sample={"variant": v})
         rep.floor("C13-R4", "negation arms", n, 5)
-    from rules.k2_targets import run_k2
-    run_k2(F, rep, "C13", "C13-R5")
+    run_r5(rep, lit, prov)
     # ---- R6: a suffixed integer (`300u8`) is evaluated as the annotated form (`300<u8>`) is: its digits are re-wrapped in the variant the parser
     # builds for plain (unprefixed) digits and handed to typed_literal, so both forms go through the same digit evaluator and the same conversion
     rep.rule("C13-R6", "suffixed integers: real() re-wraps the digits of RealNumber::TypedInteger in the variant untyped_integer builds (the annotated form's path) before typed_literal converts them")
-    plain = {v for v, fns in built.items() if "untyped_integer" in fns}
+    # the variant of plain digits: what untyped_integer builds, itself or in private helpers (functions that are not parser leaves of their own)
+    cg = CallGraph(F, ["mech_syntax.lib"])
+    plain_fns = {"untyped_integer"}
+    for b in F.bodies("mech_syntax.lib"):
+        if b.fn.endswith("literals::untyped_integer"):
+            for g in cg.out(b.fn):
+                if g.startswith("mech_syntax::literals::") and g.split("::")[-1] in plit and plit[g.split("::")[-1]].get("vis", "") == "":
+                    plain_fns.add(g.split("::")[-1])
+    plain = {v for v, fns in built.items() if fns & plain_fns}
     if rep.check(real is not None and len(plain) == 1, "C13-R6", "anchor:plain-integer-variant", "cannot identify the variant built by untyped_integer: %s" % sorted(plain)):
         found = 0
-        for m in find(real["body"], "match"):
-            for arm in m[2]:
-                if not pat_has_variant(arm[0], "TypedInteger"):
-                    continue
-                found += 1
-                wrapped = sorted({re.match(r"RealNumber::(\w+)$", c[1][1]).group(1) for c in find(arm[2], "call")
-                                  if is_node(c[1]) and c[1][0] == "path" and re.match(r"RealNumber::(\w+)$", c[1][1])})
-                conv = [path_of(c[1]) for c in find(arm[2], "call") if path_of(c[1]) and path_of(c[1]).split("::")[-1] == "typed_literal"]
-                rep.check(wrapped == sorted(plain) and bool(conv), "C13-R6", "typed-integer:rewrap",
-                          "real(): the TypedInteger arm re-wraps its digits as RealNumber::%s and %s; the annotated form `N<kind>` evaluates RealNumber::%s through typed_literal - the two spellings of one literal "
-                          "then go through different digit evaluators (f64 vs i64 parse) and the out-of-range conversion differs (saturating vs wrapping cast)" % (
-                              wrapped, "calls typed_literal" if conv else "does not call typed_literal", sorted(plain)),
-                          sample={"arm": "TypedInteger", "rewrapped_as": wrapped, "plain_digit_variant": sorted(plain)})
+        P6, arms6 = real_arms(stop=("typed_literal",) + tuple(x for x in DISPATCH if x != "typed_literal"))
+        for arm in arms6.get("TypedInteger", []):
+            found += 1
+            wrapped = sorted({re.match(r"(?:.*::)?RealNumber::(\w+)$", c[1][1]).group(1) for c in find(arm, "call")
+                              if is_node(c[1]) and c[1][0] == "path" and re.match(r"(?:.*::)?RealNumber::(\w+)$", c[1][1])})
+            conv = [path_of(c[1]) for c in find(arm, "call") if path_of(c[1]) and path_of(c[1]).split("::")[-1] == "typed_literal"]
+            rep.check(wrapped == sorted(plain) and bool(conv), "C13-R6", "typed-integer:rewrap",
+                      "real(): the TypedInteger arm re-wraps its digits as RealNumber::%s and %s; the annotated form `N<kind>` evaluates RealNumber::%s through typed_literal - the two spellings of one literal "
+                      "then go through different digit evaluators (f64 vs i64 parse) and the out-of-range conversion differs (saturating vs wrapping cast)" % (
+                          wrapped, "calls typed_literal" if conv else "does not call typed_literal", sorted(plain)),
+                      sample={"arm": "TypedInteger", "rewrapped_as": wrapped, "plain_digit_variant": sorted(plain)})
         rep.floor("C13-R6", "TypedInteger arms in real()", found, 1)
     # ---- R7: based literals are parsed in the integer type of the value they build, with no cast in between
     rep.rule("C13-R7", "based-literal evaluators parse with <T>::from_str_radix where T is the payload type of the Value variant they return, and do not cast the result "
                        "(parsing as u64 and casting to i64 turns 0xffffffffffffffff into -1 instead of rejecting it)")
     n7 = 0
-    for name, it in sorted(lit.items()):
-        calls = [c for c in find(it["body"], "call") if (path_of(c[1]) or "").endswith("::from_str_radix")]
-        if not calls:
-            continue
-        built = {re.match(r"^Value::(\w+)$", x[1]).group(1) for x in find(it["body"], "path") if re.match(r"^Value::(\w+)$", x[1])}
+
+    def parse_type_check(key, what, code):
+        """every from_str_radix call in `code` parses in the payload type of the Value variant(s) that `code` builds, uncast"""
+        cnt = 0
+        calls = [c for c in find(code, "call") if (path_of(c[1]) or "").endswith("::from_str_radix")]
+        builds = {re.match(r"^(?:.*::)?Value::(\w+)$", x[1]).group(1) for x in find(code, "path") if isinstance(x[1], str) and re.match(r"^(?:.*::)?Value::(\w+)$", x[1])}
         for c in calls:
-            n7 += 1
+            cnt += 1
             ty = path_of(c[1]).split("::")[-2]
-            casts = [x for x in find(it["body"], "cast") if any(y is c for y in walk(x))]
-            want = {b.lower() for b in built}
+            casts = [x for x in find(code, "cast") if any(y is c for y in walk(x))]
+            want = {b.lower() for b in builds}
             ok = ty in want and not casts
-            rep.check(ok, "C13-R7", "%s:parse-type" % name,
-                      "%s(): digits are parsed with %s::from_str_radix%s but the function builds Value::%s: a literal outside that type's range becomes an unrelated value instead of being rejected" % (
-                          name, ty, " and cast with `as`" if casts else "", "/".join(sorted(built))), sample={"fn": name, "parsed_as": ty, "builds": sorted(built)})
+            rep.check(ok, "C13-R7", "%s:parse-type" % key,
+                      "%s: digits are parsed with %s::from_str_radix%s but the value built is Value::%s: a literal outside that type's range becomes an unrelated value instead of being rejected" % (
+                          what, ty, " and cast with `as`" if casts else "", "/".join(sorted(builds))), sample={"evaluator": key, "parsed_as": ty, "builds": sorted(builds)})
+        return cnt
+    # the evaluator of a variant = its arm in real() with the helpers it goes through inlined (keys name the variant, not the functions involved)
+    reached = set()
+    for v in sorted(arms):
+        for arm in arms[v]:
+            reached |= set(inlined_helpers(arm))
+            n7 += parse_type_check(v, "RealNumber::%s (evaluated through %s)" % (v, ", ".join(inlined_helpers(arm)) or "the arm of real()"), arm)
+    # radix parses of the module that no arm of real() reaches are checked where they stand
+    for name, it in sorted(lit.items()):
+        if name not in reached and name != "real":
+            parse_type_check("fn:" + name, name + "()", it["body"])
     rep.floor("C13-R7", "from_str_radix call sites in the literal evaluators", n7, 4)
     run_r8(F, rep)
 
@@ -316,7 +765,10 @@ def run_r8(F, rep):
     rep.rule("C13-R8", "float-valued literal evaluators (float, integer, scientific): the value is the result of str::parse::<f64>() on text spelled from the literal's tokens; "
                       "float arithmetic (* / + - powi powf on an f64) between the digits and the result rounds twice and is allowed only where no decimal spelling exists "
                       "(scientific() with a fractional exponent: under a guard on the exponent's fractional digits)")
-    items = {it["name"]: it for it in F.syn("mech_interpreter.lib") if it["k"] == "fn" and it.get("mod", "").endswith("literals") and it["name"] in ("float", "integer", "scientific")}
+    lit = module_fns(F.syn("mech_interpreter.lib"), "literals")
+    consts = const_items(F.syn("mech_interpreter.lib"))
+    # the evaluators with the module's private helpers inlined: a parse / an arithmetic step counts wherever it was moved to
+    items = {n: inline_item(lit[n], lit, 3, stop=DISPATCH) for n in ("float", "integer", "scientific") if n in lit}
     if not rep.check(len(items) == 3, "C13-R8", "anchor:float-evaluators", "expected float(), integer(), scientific() in interpreter::literals, found %s" % sorted(items)):
         return
     n_parse = 0
@@ -327,6 +779,7 @@ def run_r8(F, rep):
         rep.check(bool(parses), "C13-R8", "%s:parses-f64" % name, "%s() no longer obtains its value from str::parse::<f64>()" % name, "%s (mech_interpreter.lib)" % name)
         # the exponent's fractional digits: 3rd component of the exponent tuple of scientific()'s argument (and whatever is computed from it alone)
         P = Prov(it)
+        P.consts = consts
         frac = (0, "1", "2") if name == "scientific" else None
         fl = float_locals(body)
         ariths = []
@@ -337,6 +790,8 @@ def run_r8(F, rep):
             if e[2] in ("powf", "powi", "mul_add", "exp", "exp2", "exp10") and not any(e is x or any(y is e for y in walk(x)) for x, _ in ariths):
                 ariths.append((e, facts))
         for e, facts in ariths:
+            if e[0] == "bin" and e[1] in ("*", "*=") and (_unit_sign(P, e[2]) or _unit_sign(P, e[3])):
+                continue            # multiplication by a selected +1 / -1 is exact: it is how a sign is applied, not a scaling step
             guarded = False
             for c, pol in G.atoms(facts):
                 if not pol and frac is not None and within(P.roots(c), frac):
@@ -354,7 +809,8 @@ def run_r9(F, rep):
     """C13-R9: rational literals are parsed exactly"""
     rep.rule("C13-R9", "rational(): numerator and denominator are parsed with str::parse::<i64>() - the component type of R64 - and reach R64::new without a cast or a detour through "
                       "another numeric type (parsing as f64 rounds parts above 2^53 and saturates parts wider than i64 instead of rejecting them)")
-    its = [it for it in F.syn("mech_interpreter.lib") if it["k"] == "fn" and it["name"] == "rational" and it.get("mod", "").endswith("literals") and it.get("body")]
+    lit = module_fns(F.syn("mech_interpreter.lib"), "literals")
+    its = [inline_item(lit["rational"], lit, 3, stop=DISPATCH)] if "rational" in lit else []
     if not rep.check(len(its) == 1, "C13-R9", "anchor:rational", "interpreter::literals::rational not found (%d)" % len(its)):
         return
     body = its[0]["body"]
@@ -377,35 +833,37 @@ def run_r10(F, rep):
     rep.rule("C13-R10", "suffixed and annotated integer literals are exact: on the way from the digits of an integer token to a value of an integer kind (typed_literal / the TypedInteger "
                        "arm of real()) the digits are parsed with an integer type (directly or in a helper the literal is handed to); evaluating them only through integer()'s f64 rounds "
                        "digits above 2^53 before the kind conversion sees them")
-    its = {it["name"]: it for it in F.syn("mech_interpreter.lib") if it["k"] == "fn" and it.get("mod", "").endswith("literals") and it["name"] in ("typed_literal", "integer", "real") and it.get("body")}
+    lit = module_fns(F.syn("mech_interpreter.lib"), "literals")
+    its = {n: lit[n] for n in ("typed_literal", "integer", "real") if n in lit}
     if not rep.check(len(its) == 3, "C13-R10", "anchor:typed_literal-integer-real", "typed_literal / integer / real not found: %s" % sorted(its)):
         return
-    def int_parse(body):
+    INT_TYPES = ("u64", "i64", "u128", "i128", "u32", "i32", "u16", "i16", "u8", "i8")
+
+    def int_parse(body, P=None, src=None):
+        """integer types that digits are parsed with in `body` (with P / src: only parses whose text is computed from the component `src`)"""
         out = []
         for m in find(body, "mcall"):
-            if m[2] == "parse" and re.sub(r"[:<>\s]", "", m[3] or "") in ("u64", "i64", "u128", "i128", "u32", "i32", "u16", "i16", "u8", "i8"):
+            if m[2] == "parse" and re.sub(r"[:<>\s]", "", m[3] or "") in INT_TYPES and (P is None or within(P.roots(m[1]), src)):
                 out.append(re.sub(r"[:<>\s]", "", m[3]))
         for c in find(body, "call"):
-            if (path_of(c[1]) or "").endswith("from_str_radix"):
-                out.append(path_of(c[1]).split("::")[0])
+            if (path_of(c[1]) or "").endswith("from_str_radix") and (P is None or (c[2] and within(P.roots(c[2][0]), src))):
+                out.append(path_of(c[1]).split("::")[-2])
         return out
-    via_f64 = any(m[2] == "parse" and re.sub(r"[:<>\s]", "", m[3] or "") == "f64" for m in find(its["integer"]["body"], "mcall"))
-    exact_path = int_parse(its["typed_literal"]["body"])
-    # helpers of the same module that typed_literal calls with the literal (one level)
-    mod_fns = {it["name"]: it for it in F.syn("mech_interpreter.lib") if it["k"] == "fn" and it.get("mod", "").endswith("literals") and it.get("body")}
-    # "the literal" is the first parameter of typed_literal (type &Literal), under whatever name, and locals that alias it
-    P = Prov(its["typed_literal"])
+    integer_fn = inline_item(its["integer"], lit, 3, stop=DISPATCH)
+    via_f64 = any(m[2] == "parse" and re.sub(r"[:<>\s]", "", m[3] or "") == "f64" for m in find(integer_fn["body"], "mcall"))
+    # typed_literal with the module's helpers inlined (two levels; the general evaluator literal() and the kind lookup stay calls: what literal()
+    # does with the digits is integer()'s f64).  "The literal" is the parameter of type &Literal, under whatever name: an exact path is an integer
+    # parse of text computed from it, in typed_literal itself or in a helper it is handed to.
+    tl = inline_item(its["typed_literal"], lit, 2, stop=DISPATCH)
+    P = Prov(tl)
     lp = param_names(its["typed_literal"], r"^&?\s*Literal$")
     LTRL = (lp[0][0],) if lp else (0,)
-    for c in find(its["typed_literal"]["body"], "call"):
-        h = (path_of(c[1]) or "").split("::")[-1]
-        if h in mod_fns and h not in ("literal", "kind_annotation", "typed_literal") and any(within(P.roots(a), LTRL) for a in c[2]):
-            exact_path += int_parse(mod_fns[h]["body"])
-    # the TypedInteger arm of real()
-    for m in find(its["real"]["body"], "match"):
-        for a in m[2]:
-            if pat_has_variant(a[0], "TypedInteger"):
-                exact_path += int_parse(a[2])
+    exact_path = int_parse(tl["body"], P, LTRL)
+    # the TypedInteger arm of real() (helpers other than typed_literal inlined)
+    rl = inline_item(its["real"], lit, 2, stop=DISPATCH)
+    for scrut, pat, arm in variant_arms(rl["body"], "RealNumber"):
+        if "TypedInteger" in pat_variants(pat, "RealNumber"):
+            exact_path += int_parse(arm)
     ok = bool(exact_path) or not via_f64
     rep.check(ok, "C13-R10", "typed-integer:exact-digits" if ok else "typed-integer:digits-through-f64",
               "an integer token is evaluated by integer() as parse::<f64>() and neither typed_literal() nor the TypedInteger arm of real() parses the digits with an integer type: "
